@@ -269,6 +269,12 @@ class Check:
         self.notes = {}
         self.broken = []          # names of theorems / ties / correspondences that no longer check
         self.known = [k for k in load_known() if k.get("property") == pid]
+        # replays are outputs of the latest run of this property
+        rd = os.path.join(ROOT, "replays")
+        if os.path.isdir(rd):
+            for f in os.listdir(rd):
+                if f.startswith(pid + "-") and f.endswith(".json"):
+                    os.remove(os.path.join(rd, f))
 
     # -- findings
     def impl_violation(self, key, what, case):
@@ -336,6 +342,10 @@ class Check:
             lines.append("VIOLATION property=%s replay=%s no-failing-input-found" % (self.pid, path))
             rc = 1
         cov = self.coverage
+        if cov.get("discharged", 0) == 0:
+            # nothing was proved on this run: the proof-level keys do not apply (evidence falls back to the generic counts)
+            cov["discharged_none"] = True
+            cov.pop("discharged", None)
         cov["notes"] = self.notes
         if self.broken:
             cov["broken"] = [b["name"] for b in self.broken]
@@ -350,7 +360,7 @@ class Check:
         for l in lines:
             print(l)
         print("%s %s: %s (%.1fs, obligations %d/%d, evaluations %d)" % (
-            self.pid, self.tier, "OK" if rc == 0 else "FAIL", wall, cov["discharged"], cov["obligations"], cov["evaluations"]))
+            self.pid, self.tier, "OK" if rc == 0 else "FAIL", wall, cov.get("discharged", 0), cov["obligations"], cov["evaluations"]))
         return rc
 
 
